@@ -171,9 +171,22 @@ def stream_of(items, tail):
     return b"".join(f + m for f, m in items) + tail
 
 
+OVERSIZE_PAYLOADS = [0xFFFFFFF8, 0xFFFFFFF9, 0xFFFFFFFB, 0xFFFFFFFE, 0xFFFFFFFF]   # > 0xFFFFFFFF - 8: discarded by the repaired code
+
+
+def has_oversize_header(p, s):
+    """A preamble followed (2 bytes later) by a PayloadSize field above 0xFFFFFFFF - 8 somewhere in the stream."""
+    i = s.find(bytes(p))
+    while i >= 0:
+        if i + 8 <= len(s) and int.from_bytes(s[i + 4:i + 8], "little") > 0xFFFFFFFF - 8:
+            return True
+        i = s.find(bytes(p), i + 1)
+    return False
+
+
 def malformed_stream(rng, p, maxlen=60):
-    """Garbage biased towards preamble bytes, truncated / oversized / lying headers, whole messages in between.
-    PayloadSize fields stay below 2^32 - 8 (above that the C++ message size wraps: see the K-C14 finding)."""
+    """Garbage biased towards preamble bytes, truncated / oversized / lying headers (also PayloadSize fields that would wrap the
+    32 bit message size, and the largest one that does not), whole messages in between."""
     out = bytearray()
     while len(out) < maxlen and rng.random() < 0.93:
         k = rng.random()
@@ -183,6 +196,9 @@ def malformed_stream(rng, p, maxlen=60):
             out += bytes([p[0]])
         elif k < 0.6:
             out += bytes(p)
+        elif k < 0.68:
+            # a header the repaired code has to discard (fixed K-C14-1 / K-C14-2), then anything
+            out += header(p, rng.randrange(4), rng.choice(OVERSIZE_PAYLOADS + [0xFFFFFFF7])) + biased_bytes(rng, p, rng.choice([0, 0, 3, 9]))
         elif k < 0.8:
             size = rng.choice([0, 1, 2, 5, 9])
             lie = rng.choice([0, 0, 1, -1, 3, 300, 70000])
